@@ -148,6 +148,64 @@ macro_rules! fill_equiv_harness {
 //@ asserts: byte fill and integer fill of the sign-extended reference leave identical channel slices and fill level; the slices equal the reference de-interleaving and have exactly the new fill length (nothing of the previous block is visible)
 //@ stubs: alloc::fmt::format -> empty string
 fill_equiv_harness!(c14_fill_equiv_ch1_b2, 1, 2);
+/// A longer byte fill followed by a shorter one on the SAME buffer (the final short block of a
+/// byte-fed stream), compared with a fresh buffer filled once with the reference integers.
+fn refill_case<const CH: usize, const BPS: usize, const NB1: usize, const NB2: usize, const NI2: usize>() -> bool {
+    let first: [u8; NB1] = kani::any();
+    let second: [u8; NB2] = kani::any();
+    let mut ints = [0i32; NI2];
+    let mut i = 0;
+    while i < NI2 {
+        ints[i] = ref_sample(&second, i * BPS, BPS);
+        i += 1;
+    }
+    let k2 = NI2 / CH;
+    let mut a = new_framebuf(CH, 32);
+    let r = a.fill_le_bytes(&first, BPS);
+    let ok = r.is_ok();
+    std::mem::forget(r);
+    assert!(ok && a.filled_size() == NB1 / BPS / CH);
+    let r = a.fill_le_bytes(&second, BPS);
+    let ok = r.is_ok();
+    std::mem::forget(r);
+    assert!(ok);
+    let mut b = new_framebuf(CH, 32);
+    let r = b.fill_interleaved(&ints);
+    let ok = r.is_ok();
+    std::mem::forget(r);
+    assert!(ok);
+    assert!(a.filled_size() == k2 && b.filled_size() == k2);
+    let mut ch = 0;
+    while ch < CH {
+        let (sa, sb) = (a.channel_slice(ch), b.channel_slice(ch));
+        assert!(sa.len() == k2 && sb.len() == k2);
+        let mut t = 0;
+        while t < k2 {
+            assert!(sa[t] == sb[t] && sb[t] == ints[t * CH + ch]);
+            t += 1;
+        }
+        ch += 1;
+    }
+    let c = ints[NI2 - 1] < 0;
+    std::mem::forget(a);
+    std::mem::forget(b);
+    c
+}
+
+//@ prop: C14
+//@ also: C10
+//@ drives: FrameBuf::fill_le_bytes twice on one buffer (the conversion scratch `readbuf` is reused), FrameBuf::fill_interleaved, deinterleave_ch2 / deinterleave_ch1, le_bytes_to_i32s
+//@ bound: histories of two byte fills on one 32-sample buffer: 3 then 1 inter-channel samples (stereo, 2 bytes per sample) and 4 then 2 samples (mono, 3 bytes per sample); every byte value
+//@ asserts: after the second (shorter) fill the buffer shows exactly the second block: fill level and per-channel samples equal those of a fresh buffer filled with the sign-extended reference integers (nothing of the longer first block survives)
+//@ stubs: alloc::fmt::format -> empty string
+#[kani::proof]
+#[kani::unwind(36)]
+#[kani::stub(alloc::fmt::format, fmt_stub)]
+fn c14_byte_refill_shorter_block() {
+    let c = if kani::any() { refill_case::<2, 2, 12, 4, 2>() } else { refill_case::<1, 3, 12, 6, 2>() };
+    kani::cover!(c);
+}
+
 //@ prop: C14
 //@ also: C10
 //@ drives: FrameBuf::fill_le_bytes, FrameBuf::fill_interleaved, deinterleave_ch2, le_bytes_to_i32s_impl::<3>
@@ -242,6 +300,70 @@ fn c14_vacuity_twin() {
 }
 
 // ======================================================================== C17: fill argument validation
+//@ prop: C17
+//@ drives: FrameBuf::verify_samples (the sample-range check behind encode_fixed_size_frame and the stream encoder), FrameBuf::channel_slice, arrayutils::find_min_and_max::<64>
+//@ bound: a PARTIALLY filled buffer: 2 and 3 channels, capacity 32, fill level 2; every i32 value at one symbolic position per channel of the loaded region and at one position beyond the fill level; declared width 8/16/24
+//@ asserts: Ok if and only if every LOADED sample of EVERY channel lies inside the declared width (a violation in a channel other than the first, or in a short final block, must be reported; stale cells beyond the fill level must not matter)
+//@ stubs: alloc::fmt::format -> empty string
+#[kani::proof]
+#[kani::unwind(70)]
+#[kani::stub(alloc::fmt::format, fmt_stub)]
+fn c17_verify_samples_partial_fill() {
+    let three: bool = kani::any();
+    let bits: usize = if kani::any() { 16 } else if kani::any() { 8 } else { 24 };
+    let lo = -(1i64 << (bits - 1));
+    let hi = (1i64 << (bits - 1)) - 1;
+    let x: [i32; 3] = kani::any();
+    let pos: [usize; 3] = kani::any();
+    let stale: i32 = kani::any();
+    let ok_expected;
+    let ok;
+    if three {
+        let mut fb = new_framebuf(3, 32);
+        let mut data = [0i32; 6];
+        let mut c = 0;
+        let mut all = true;
+        while c < 3 {
+            kani::assume(pos[c] < 2);
+            data[pos[c] * 3 + c] = x[c];
+            all = all && (x[c] as i64) >= lo && (x[c] as i64) <= hi;
+            c += 1;
+        }
+        let r = fb.fill_interleaved(&data);
+        assert!(r.is_ok());
+        std::mem::forget(r);
+        fb.samples[32 + 5] = stale; // channel 1, beyond the fill level
+        let r = fb.verify_samples(bits);
+        ok = r.is_ok();
+        std::mem::forget(r);
+        ok_expected = all;
+        std::mem::forget(fb);
+    } else {
+        let mut fb = new_framebuf(2, 32);
+        let mut data = [0i32; 4];
+        let mut c = 0;
+        let mut all = true;
+        while c < 2 {
+            kani::assume(pos[c] < 2);
+            data[pos[c] * 2 + c] = x[c];
+            all = all && (x[c] as i64) >= lo && (x[c] as i64) <= hi;
+            c += 1;
+        }
+        let r = fb.fill_interleaved(&data);
+        assert!(r.is_ok());
+        std::mem::forget(r);
+        fb.samples[7] = stale; // channel 0, beyond the fill level
+        let r = fb.verify_samples(bits);
+        ok = r.is_ok();
+        std::mem::forget(r);
+        ok_expected = all;
+        std::mem::forget(fb);
+    }
+    assert!(ok == ok_expected);
+    kani::cover!(!ok && (x[0] as i64) >= lo && (x[0] as i64) <= hi);
+    kani::cover!(ok && ((stale as i64) > hi));
+}
+
 //@ prop: C17
 //@ drives: FrameBuf::fill_interleaved, FrameBuf::channel_slice
 //@ bound: 2-channel buffer of 32 samples; slices of every length 0..=70 (so: odd lengths, exactly full, one sample too many, more than twice the capacity); arbitrary sample values
